@@ -6,6 +6,8 @@ SPEC = {
         {"pkg": "internal/corerad", "test": "TestVerifC10RX", "newgo": True, "timeout": {"quick": 400, "thorough": 1500}, "corr_module": "Corr.C10td"},
         {"pkg": "internal/system", "test": "TestVerifC10dial", "newgo": True, "timeout": 1500, "corr_module": "Corr.C10dial"},
         {"pkg": "internal/system", "test": "TestVerifC10link", "newgo": True, "timeout": 900, "corr_module": "Corr.C10link"},
+        # the back-off on the wall clock, built like the shipped binary (no GODEBUG override: old timer-channel semantics)
+        {"pkg": "internal/system", "test": "TestVerifC10dialReal", "newgo": False, "timeout": 120, "arch386": []},
         # the real dialNDP / checkInterface / lookupInterface on a veth pair (root only; tagged unavailable otherwise)
         {"pkg": "internal/system", "test": "TestVerifRealOS", "newgo": True, "timeout": 300},
     ],
